@@ -117,14 +117,6 @@ impl<'a> FullnameSerializer<'a> {
     //     }
     // }
 
-    // this is handy for the HTML rendering system, which insists some namespaces
-    // should be in the empty prefix (xhtml, mathml, svg)
-    pub(crate) fn add_empty_prefix(&mut self, namespace_id: NamespaceId) {
-        let current_fullname_info = self.stack.last_mut().unwrap();
-        let empty_entry = (self.xot.empty_prefix(), namespace_id);
-        current_fullname_info.all_namespaces.push(empty_entry);
-    }
-
     pub(crate) fn pop(&mut self, has_namespaces: bool) {
         if has_namespaces {
             self.stack.pop();
